@@ -217,7 +217,9 @@ def build_fixture(name, src_dir, features=None):
         shutil.copy(lock, os.path.join(stage, 'Cargo.lock'))
     start = time.time()
     target = os.path.join(WORK, 'target-%s-fx' % rid)
-    run_driver(stage, [], 'fx-' + name, out_dir, target, ['vf-' + name, 'vf_' + name], crates=[crate])
+    # the library and the derive crate are path dependencies of the fixture: force their re-check too, so that a stale
+    # artefact can never stand in for the tree under analysis (cargo's own freshness test is mtime based)
+    run_driver(stage, [], 'fx-' + name, out_dir, target, ['vf-' + name, 'vf_' + name, 'parity-scale-codec', 'parity-scale-codec-derive'], crates=[crate])
     if not os.path.exists(path) or os.path.getmtime(path) < start - 1:
         raise BuildError('fixture %s: fact file not written' % name)
     open(marker, 'w').write(str(time.time()))
